@@ -51,8 +51,17 @@ Theorem C19_versioned_order : forall k v1 v2, v1 < 18446744073709551616 -> v2 < 
   lex_lt (versioned_key k v1) (versioned_key k v2) = (v2 <? v1).
 Proof. exact versioned_order. Qed.
 
+(* the precondition is enforced where a component is attacker-chosen: an order id accepted by the message checks (edit-order,
+   delete-order, the order instructions of certificate results) gives a well-formed key that decodes to its segments *)
+Theorem C19_accepted_order_id_wf : forall chain id, u64 chain -> order_id_ok id = true -> skey_wf (KOrder chain id).
+Proof. exact accepted_order_id_wf. Qed.
+Theorem C19_accepted_order_key_decodes : forall chain id, u64 chain -> order_id_ok id = true ->
+  decode (encode_key (KOrder chain id)) = Some (segs_of (KOrder chain id)).
+Proof. exact accepted_order_key_decodes. Qed.
+Print Assumptions C19_accepted_order_key_decodes.
+
 (* outside the precondition (a component of 256 bytes or more) the length byte wraps: keys collide and stop decoding.
-   Reachability from untrusted input (order ids of edit/delete-order) is examined by the harness (observation O-6). *)
+   It was reachable from untrusted input (order ids of edit/delete-order; repaired, KNOWN_FINDINGS.txt): the harness plays such transactions through the real state machine. *)
 Theorem C19_join_truncation_refuted : exists a b : list bytes, a <> b /\ join a = join b.
 Proof. exact join_truncation_refuted. Qed.
 Theorem C19_join_truncation_decode_refuted : exists s : bytes, decode (join [[13]; s]) = None.
